@@ -46,6 +46,59 @@ class Val(object):
         return 'Val(%r,%r)' % (self.uid, self.payload)
 
 
+KINDS = ['obj', 'obj', 'tuple', 'dict', 'list']
+
+
+def make_value(uid, kind='obj'):
+    """a value with a unique id and a mutable payload, in several Python shapes (tuples are only shallowly immutable)"""
+    if kind == 'obj':
+        return Val(uid)
+    if kind == 'tuple':
+        return ('val', uid, [uid])
+    if kind == 'dict':
+        return {'uid': uid, 'payload': [uid]}
+    return [uid, [uid]]
+
+
+def uid_of(v):
+    if isinstance(v, Val):
+        return v.uid
+    if isinstance(v, tuple):
+        return v[1]
+    if isinstance(v, dict):
+        return v['uid']
+    if isinstance(v, list):
+        return v[0]
+    return repr(v)
+
+
+def payload_of(v):
+    if isinstance(v, Val):
+        return v.payload
+    if isinstance(v, tuple):
+        return v[2]
+    if isinstance(v, dict):
+        return v['payload']
+    return v[1]
+
+
+def is_value(v):
+    return isinstance(v, (Val, tuple, dict, list))
+
+
+def bump_any(v):
+    if v is None:
+        return None
+    if isinstance(v, Val):
+        return bump(v)
+    new = list(payload_of(v)) + ['applied']
+    if isinstance(v, tuple):
+        return ('val', uid_of(v) + 1000000, new)
+    if isinstance(v, dict):
+        return {'uid': uid_of(v) + 1000000, 'payload': new}
+    return [uid_of(v) + 1000000, new]
+
+
 def bump(v):
     if v is None:
         return None
@@ -112,17 +165,17 @@ def compare_state(ctx, T, model, types, callers, where):
                 if got is not None:
                     ctx.violation('pt:unset-pair-has-value', '%s: pair (%r,%r) never assigned but reads %r' % (where, a, b, got))
                 continue
-            if got is None or not isinstance(got, Val):
+            if got is None or not is_value(got):
                 ctx.violation('pt:lost-write', '%s: pair (%r,%r) should hold write #%s, reads %r' % (where, a, b, exp[0], got))
                 continue
-            if got.uid != exp[0]:
-                ctx.violation('pt:wrong-write-observed', '%s: pair (%r,%r) holds write #%s, last assigned was #%s' % (where, a, b, got.uid, exp[0]))
-            elif got.payload != exp[1]:
-                ctx.violation('pt:payload-leak', '%s: pair (%r,%r) payload %r, expected %r (value shared with another pair or the caller?)' % (where, a, b, got.payload, exp[1]))
+            if uid_of(got) != exp[0]:
+                ctx.violation('pt:wrong-write-observed', '%s: pair (%r,%r) holds write #%s, last assigned was #%s' % (where, a, b, uid_of(got), exp[0]))
+            elif payload_of(got) != exp[1]:
+                ctx.violation('pt:payload-leak', '%s: pair (%r,%r) payload %r, expected %r (value shared with another pair or the caller?)' % (where, a, b, payload_of(got), exp[1]))
             objs.setdefault(upair(a, b), []).append(got)
     # the two orders of one pair must read the same value
     for p, lst in objs.items():
-        if len(lst) == 2 and (lst[0].uid != lst[1].uid or lst[0].payload != lst[1].payload):
+        if len(lst) == 2 and (uid_of(lst[0]) != uid_of(lst[1]) or payload_of(lst[0]) != payload_of(lst[1])):
             ctx.violation('pt:asymmetric', '%s: (a,b) and (b,a) of %s read different values' % (where, sorted(map(str, p))))
     # isolation: distinct unordered pairs hold distinct objects, none is a caller's object
     seen = {}
@@ -150,11 +203,11 @@ def compare_iter(ctx, T, model, types, where):
         got = []
         for item in T.iterpairs(**kw):
             (i, j), (a, b), v = item
-            got.append(((i, j), (a, b), None if v is None else getattr(v, 'uid', repr(v))))
+            got.append(((i, j), (a, b), None if v is None else uid_of(v)))
         if got != exp:
             ctx.violation('pt:iterpairs-order-or-coverage', '%s: iterpairs(%s) yields %s, expected %s' % (where, kw, got[:8], exp[:8]))
     exp = [((i, j), (types[i], types[j]), (model.get(upair(types[i], types[j])) or [None])[0]) for i in range(n) for j in range(n)]
-    got = [((i, j), (a, b), None if v is None else getattr(v, 'uid', repr(v))) for (i, j), (a, b), v in T]
+    got = [((i, j), (a, b), None if v is None else uid_of(v)) for (i, j), (a, b), v in T]
     if got != exp:
         ctx.violation('pt:iter-order-or-coverage', '%s: iteration yields %s, expected %s' % (where, got[:8], exp[:8]))
 
@@ -182,68 +235,67 @@ def run_pairtable(ctx, types, steps):
         op = st[0]
         if op == 'set1':
             a, b = types[st[1]], types[st[2]]
-            v = Val(st[3])
+            v = make_value(st[3], KINDS[st[3] % len(KINDS)])
             callers.append(v)
             reassign |= upair(a, b) in model
             T[a, b] = v
-            model[upair(a, b)] = [v.uid, list(v.payload)]
+            model[upair(a, b)] = [uid_of(v), list(payload_of(v))]
         elif op == 'setlist':
             l1, l2 = [types[i] for i in st[1]], [types[i] for i in st[2]]
             form = st[4]
             k1 = tuple(l1) if form == 'tuple' else (l1[0] if form == 'single_left' else list(l1))
             k2 = tuple(l2) if form == 'tuple' else (l2[0] if form == 'single_right' else list(l2))
-            v = Val(st[3])
+            v = make_value(st[3], KINDS[st[3] % len(KINDS)])
             callers.append(v)
             T[k1, k2] = v
             for a in l1:
                 for b in l2:
                     reassign |= upair(a, b) in model
-                    model[upair(a, b)] = [v.uid, list(v.payload)]
+                    model[upair(a, b)] = [uid_of(v), list(payload_of(v))]
         elif op == 'setunset':
-            v = Val(st[1])
+            v = make_value(st[1], KINDS[st[1] % len(KINDS)])
             callers.append(v)
             partial = 0 < len(model)
             T.setUnset(v)
             for a in types:
                 for b in types:
                     if upair(a, b) not in model:
-                        model[upair(a, b)] = [v.uid, list(v.payload)]
+                        model[upair(a, b)] = [uid_of(v), list(payload_of(v))]
                         reassign |= partial
         elif op == 'apply_in':
-            r = T.apply(bump, inplace=True)
+            r = T.apply(bump_any, inplace=True)
             if r is not T:
                 ctx.violation('pt:apply-inplace-returns-other', '%s: apply(inplace=True) did not return the table itself' % where)
             for p in list(model):
-                b_ = bump(_mk(model[p]))
-                model[p] = [b_.uid, b_.payload]
+                model[p] = [model[p][0] + 1000000, list(model[p][1]) + ['applied']]
         elif op == 'apply_out':
-            r = T.apply(bump, inplace=False)
+            identity = (k % 2 == 1)           # every other time the function hands back its argument (e.g. np.asarray, "convert if needed")
+            r = T.apply((lambda v: v) if identity else bump_any, inplace=False)
             if r is T:
                 ctx.violation('pt:apply-outofplace-returns-self', '%s: apply(inplace=False) returned the table itself' % where)
             else:
                 m2 = {}
                 for p in model:
-                    b_ = bump(_mk(model[p]))
-                    m2[p] = [b_.uid, b_.payload]
+                    m2[p] = [model[p][0], list(model[p][1])] if identity else [model[p][0] + 1000000, list(model[p][1]) + ['applied']]
                 compare_state(ctx, r, m2, types, callers, where + ' [returned table]')
                 # mutating the returned table must not reach the original
                 for a in types:
                     for b in types:
                         h = r[a, b]
                         if h is not None:
-                            h.payload.append('poison')
+                            payload_of(h).append('poison')
         elif op == 'mutate_handle':
             a, b = types[st[1]], types[st[2]]
             h = T[a, b]
             if h is not None:
                 ctx.hook('pt.isolation_probe')
-                h.payload.append(('m', st[3]))
+                payload_of(h).append(('m', st[3]))
                 model[upair(a, b)][1] = model[upair(a, b)][1] + [('m', st[3])]
         elif op == 'mutate_caller':
             # the caller keeps using the object it assigned earlier
             if callers:
                 ctx.hook('pt.isolation_probe')
-                callers[st[3] % len(callers)].payload.append(('caller', st[3]))
+                payload_of(callers[st[3] % len(callers)]).append(('caller', st[3]))
         elif op == 'check':
             compare_check(ctx, T, model, types, where)
         elif op == 'iter':
